@@ -168,6 +168,7 @@ func init() {
 		"zzYield":          inYield,
 		"zzLogCount":       inLogCount,
 		"zzGuardedBy":      inGuardedBy,
+		"zzGuardedIn":      inGuardedIn,
 		"zzWaitIdle":       inWaitIdle,
 		"zzStrEq":          inStrEq,
 		"zzDeepEqual":      inDeepEqual,
